@@ -210,6 +210,13 @@ def ev(fn, args):
         table, sub, order, pre = args
         assert lst(table) == base_table(), 'table'
         return SEP2.join(run_base(sub, [OptionKey(n) for n in lst(order)], lst(pre)))
+    if fn == 'depfile':
+        from mesonbuild import depfile as DF
+        lines = []
+        for r in args[1:]:
+            f = r.split(SEP1)
+            lines.append('%s: %s\n' % (' '.join(lst(f[0])), ' '.join(lst(f[1]) if len(f) > 1 else [])))
+        return SEP2.join(DF.DepFile(lines).get_all_dependencies(args[0]))
     if fn == 'fs':
         return run_fs(args)
     return '?'
@@ -223,6 +230,44 @@ def safe(fn, args):
 
 
 # ---------------------------------------------------------------- oracle
+def exe_wrapper_name(ops, cmd, capture, feed):
+    """The real Backend.as_meson_exe_cmdline (digest naming of the pickled wrapper and the glue
+    around it) on a stub backend: returns the command line with the scratch directory masked."""
+    from mesonbuild.backend.backends import Backend
+    from mesonbuild.utils.core import ExecutableSerialisation
+    scratch = tempfile.mkdtemp(prefix='mverif-C06-exe-', dir=os.environ.get('TMPDIR') or '/var/tmp')
+
+    class Env:
+        def get_scratch_dir(self):
+            return scratch
+
+        def get_build_dir(self):
+            return '/b'
+
+        def get_build_command(self):
+            return ['meson']
+
+    class B(Backend):
+        def __init__(self):
+            self.environment = Env()
+
+        def get_executable_serialisation(self, cmd, workdir=None, extra_bdeps=None, capture=None, feed=None, env=None,
+                                         can_use_rsp_file=False, separator=' ', rsp_file_flag='@', tag=None, verbose=False,
+                                         installdir_map=None):
+            return ExecutableSerialisation(list(cmd), env, None, workdir or '/b', [], capture, feed, tag, verbose, installdir_map)
+    try:
+        env = EnvironmentVariables()
+        for op in ops:
+            if op[0] == 'unset':
+                env.unset(op[1])
+            else:
+                getattr(env, op[0])(op[1], list(op[2]), op[3])
+        cmdline, reason = B().as_meson_exe_cmdline(cmd[0], cmd[1:], capture=capture, feed=feed, env=env)
+        return SEP2.join(c.replace(scratch, '<scratch>') for c in cmdline) + SEP1 + reason
+    finally:
+        shutil.rmtree(scratch, ignore_errors=True)
+
+
 def oracle_sets(groups):
     """Real Python sets, filled in the given insertion orders: every writer must produce the
     same bytes for every insertion order (and, because this adapter is run under several
@@ -255,6 +300,10 @@ def oracle_sets(groups):
                     h = FakeHasher()
                     env.hash(h)
                     outs.append(h.data.decode())
+                elif kind == 'depfile':
+                    outs.append(ev('depfile', [g['name']] + list(order)))
+                elif kind == 'exedigest':
+                    outs.append(exe_wrapper_name(order, g['cmd'], g.get('capture'), g.get('feed')))
                 elif kind == 'uniq':
                     # same sequence in every order slot: only the hash seed varies
                     outs.append(SEP2.join(U.unique_list(g['seq'])) + SEP1 + SEP2.join(U.OrderedSet(g['seq'])))
@@ -332,9 +381,43 @@ def oracle_replace(cases):
     return fails
 
 
+def coverage(texts):
+    """functions / methods and keyword arguments used by the generated build files (parsed with the
+    real parser), and the interpreter's function table for the gap list"""
+    import re
+    from mesonbuild import mparser
+    from mesonbuild.ast import AstVisitor
+    used = {}
+
+    class V(AstVisitor):
+        def note(self, name, args):
+            kws = used.setdefault(name, set())
+            for k in args.kwargs:
+                kws.add(getattr(k, 'value', '?'))
+
+        def visit_FunctionNode(self, node):
+            self.note(node.func_name.value, node.args)
+            super().visit_FunctionNode(node)
+
+        def visit_MethodNode(self, node):
+            self.note('.' + node.name.value, node.args)
+            super().visit_MethodNode(node)
+    bad = 0
+    for t in texts:
+        try:
+            mparser.Parser(t, '').parse().accept(V())
+        except Exception:
+            bad += 1
+    src = open(os.path.join(os.path.dirname(mintro.__file__), 'interpreter', 'interpreter.py'), encoding='utf-8').read()
+    table = sorted(set(re.findall(r"^\s+'(\w+)': self\.func_\w+,", src, re.M)))
+    return {'used': {k: sorted(v) for k, v in sorted(used.items())}, 'interpreter_functions': table, 'unparsed': bad}
+
+
 def main():
     req = json.load(sys.stdin)
     out = {}
+    if 'coverage' in req:
+        out['coverage'] = coverage(req['coverage'])
     if 'cases' in req:
         out['results'] = [safe(fn, args) for fn, args in req['cases']]
     if 'table' in req:
